@@ -331,12 +331,14 @@ class BaseClient:
                 if ch == '"':
                     seq_quotes += 1
                 else:
-                    if seq_quotes == 1:
-                        break
-                    elif seq_quotes == 2:
+                    # a run of quotes: every pair is one embedded quote, an odd one out closes the directory
+                    directory += '"' * (seq_quotes // 2)
+                    if seq_quotes % 2:
                         seq_quotes = 0
-                        directory += '"'
+                        break
+                    seq_quotes = 0
                     directory += ch
+        directory += '"' * (seq_quotes // 2)
         return pathlib.PurePosixPath(directory)
 
     @staticmethod
